@@ -389,8 +389,8 @@ def run(ctx):
         if mod is not None and live != mod:
             diff = [x for x in zip(live, mod) if x[0] != x[1]][:2] or [(len(live), len(mod))]
             viol.append((dict(kind="registry-differs"), "cash units of the live registry differ from the model's registration on table %s base %s: %r" % (t["name"], b, diff), replay, False))
-            continue
-        if mod is not None:
+            # no `continue`: the conversions below decide whether the difference makes the property fail
+        if mod is not None and live == mod:
             for (s, n, p, mh), u in zip(r["cash"], t["units"]):
                 if not close(Fraction(float.fromhex(mh)), rb / u["rate"], 1e-12):
                     viol.append((dict(kind="multiple"), "C20 fails: unit %s has multiple %r, rate(base)/rate(row) = %r (table %s base %s)"
